@@ -195,6 +195,10 @@ def first_uid_of(data):
 SPECIAL_BODIES = {
     # SUMMARY twice: the text change descriptions (commit messages) are made from is a list
     "twice-summary": lambda: gamma.ics_event("special-twice", "first summary", extra=("SUMMARY:second summary",)),
+    "recurring": lambda: gamma.ics_event("special-rrule", "Weekly", dtstart="20200106T100000Z", dtend="20200106T110000Z",
+                                         extra=("RRULE:FREQ=WEEKLY;COUNT=5",)),
+    "recurring-tz": lambda: gamma.ics_event("special-rrule-2", "Daily", dtstart="20200301T090000Z", dtend="20200301T093000Z",
+                                            extra=("RRULE:FREQ=DAILY;COUNT=3",)),
     "uid-u-1": lambda: gamma.ics_event("special-uid-u", "holder one"),
     "uid-u-2": lambda: gamma.ics_event("special-uid-u", "holder two", dtstart="20200109T100000Z", dtend="20200109T110000Z"),
 }
